@@ -237,8 +237,23 @@ def run_ciq(case, feat, key):
         return result(VIOL, kind="nan", msg="NaN/Inf in the quadrature result", feat=feat, keys=[key])
     pre = op._preconditioner()[1] if case["cls"] == "AddedDiagPre" else None
     rhs_eff = rhs
-    if pre is not None:  # the quadrature is applied to P^{1/2} rhs (preconditioned variant); compare only in the no-preconditioner cells
-        return result(OK, feat=feat, keys=[key], nontrivial=False)
+    if pre is not None:
+        # preconditioned variant: the result is R b with a (non-symmetric) root R, R R^T = K^-1 (inverse) or K (otherwise). Identify R
+        # column by column (the quadrature nodes depend on b only through the eigenvalue estimates) and multiply it out.
+        eye = torch.eye(N, dtype=torch.float64).expand(*A.shape[:-2], N, N).contiguous()
+        gotI = call(contour_integral_quad, op, eye, inverse=case["inv"], num_contour_quadrature=case["nq"])
+        if isinstance(gotI, Raised):
+            return result(VIOL, kind="internal-error", exc=gotI.type, msg=f"{gotI.msg} @ {gotI.where()}", feat=feat, keys=[key])
+        solves_I, weights_I = gotI[0], gotI[1]
+        Rm_ = (solves_I * weights_I).sum(0) if solves_I.dim() > eye.dim() else solves_I
+        tgt = torch.linalg.inv(A) if case["inv"] else A
+        kappa = (torch.linalg.eigvalsh(A).amax() / torch.linalg.eigvalsh(A).amin()).item()
+        qerr = math.exp(-2 * math.pi ** 2 * case["nq"] / (math.log(kappa) + 6.0))
+        tolp = max(1e-5, 200 * qerr) * max(1.0, tgt.abs().amax().item()) * (1e2 if (N > 20 and kappa > 100) else 1.0)
+        dp = (Rm_ @ Rm_.mT - tgt).abs().amax().item()
+        if not dp <= tolp:
+            return result(VIOL, kind="quadrature", msg=f"preconditioned quadrature: R R^T differs from K^{'-1' if case['inv'] else '1'} by {dp:.3g} (tol {tolp:.3g}, kappa {kappa:.3g}, nq {case['nq']})", feat=feat, keys=[key])
+        return result(OK, feat=feat, keys=[key], ratio=dp / tolp, trans=case["nq"] + 2)
     target = mat_fun(A, -0.5 if case["inv"] else 0.5) @ rhs_eff
     kappa = (torch.linalg.eigvalsh(A).amax() / torch.linalg.eigvalsh(A).amin()).item()
     # quadrature error of the elliptic-function rule: ~ exp(-2 pi^2 nq / (log(kappa) + 3)); require 1e-6 only where that is attainable
